@@ -1,15 +1,18 @@
 package httputil
 
 import (
+	"context"
 	"crypto/tls"
 	"errors"
 	"io"
+	"net"
 	"net/http"
 	"net/url"
 	"strings"
 	"time"
 
 	"github.com/influxdata/influxdb/pkg/jwtutil"
+	"github.com/influxdata/influxdb/pkg/verifhook"
 )
 
 const (
@@ -44,6 +47,14 @@ func NewClient(c Config) *Client {
 	transport := http.DefaultTransport.(*http.Transport).Clone()
 	if c.UseTLS {
 		transport.TLSClientConfig = &tls.Config{InsecureSkipVerify: c.SkipTLS}
+	}
+	if verifhook.Enabled {
+		transport.DialContext = func(ctx context.Context, network, addr string) (net.Conn, error) {
+			if conn, err, ok := verifhook.Dial(network, addr, 0); ok {
+				return conn, err
+			}
+			return (&net.Dialer{}).DialContext(ctx, network, addr)
+		}
 	}
 	return &Client{
 		httpClient: &http.Client{
